@@ -145,9 +145,10 @@ extern "C" fn on_segv(_sig: libc::c_int, info: *mut libc::siginfo_t, _ctx: *mut 
     }
     let msg: &[u8] = if hit { b"\nGUARD-PAGE-HIT\n" } else { b"\nSEGV-ELSEWHERE\n" };
     unsafe {
-        libc::write(2, msg.as_ptr() as *const _, msg.len());
+        libc::write(ORIG_ERR.load(Ordering::Relaxed), msg.as_ptr() as *const _, msg.len());
         libc::signal(libc::SIGSEGV, libc::SIG_DFL);
     }
+    write_last_op();
     // returning re-executes the faulting instruction with the default disposition: the
     // process dies with SIGSEGV, which the supervisor classifies
 }
@@ -159,5 +160,79 @@ pub fn install_segv_reporter() {
         sa.sa_flags = libc::SA_SIGINFO | libc::SA_ONSTACK;
         libc::sigemptyset(&mut sa.sa_mask);
         libc::sigaction(libc::SIGSEGV, &sa, std::ptr::null_mut());
+    }
+}
+
+// ---------------------------------------------------------------------------------------
+// death attribution: the library's non-unwinding panics print a full backtrace (dozens of lines)
+// after the message, which pushes the announced call out of the supervisor's stderr tail. The
+// worker therefore (a) filters backtrace frames out of its stderr and (b) repeats the last
+// announced call from the SIGABRT / SIGSEGV handler.
+
+static ORIG_ERR: std::sync::atomic::AtomicI32 = std::sync::atomic::AtomicI32::new(2);
+static LAST_OP: [std::sync::atomic::AtomicU8; 160] = [const { std::sync::atomic::AtomicU8::new(0) }; 160];
+static LAST_OP_LEN: AtomicUsize = AtomicUsize::new(0);
+
+pub fn set_last_op(s: &str) {
+    let b = s.as_bytes();
+    let n = b.len().min(LAST_OP.len());
+    for i in 0..n {
+        LAST_OP[i].store(b[i], Ordering::Relaxed);
+    }
+    LAST_OP_LEN.store(n, Ordering::Release);
+}
+
+fn write_last_op() {
+    let fd = ORIG_ERR.load(Ordering::Relaxed);
+    let mut buf = [0u8; 180];
+    let pre = b"\nLAST-OP ";
+    buf[..pre.len()].copy_from_slice(pre);
+    let n = LAST_OP_LEN.load(Ordering::Acquire);
+    for i in 0..n {
+        buf[pre.len() + i] = LAST_OP[i].load(Ordering::Relaxed);
+    }
+    buf[pre.len() + n] = b'\n';
+    unsafe {
+        libc::write(fd, buf.as_ptr() as *const _, pre.len() + n + 1);
+    }
+}
+
+extern "C" fn on_abort(_sig: libc::c_int) {
+    write_last_op();
+    unsafe {
+        libc::signal(libc::SIGABRT, libc::SIG_DFL);
+    }
+}
+
+/// route fd 2 through a filter thread that drops backtrace frames; install the SIGABRT reporter
+pub fn install_stderr_filter() {
+    use std::io::{BufRead, Write};
+    use std::os::fd::FromRawFd;
+    unsafe {
+        let mut fds = [0i32; 2];
+        if libc::pipe(fds.as_mut_ptr()) != 0 {
+            return;
+        }
+        let orig = libc::dup(2);
+        libc::dup2(fds[1], 2);
+        libc::close(fds[1]);
+        ORIG_ERR.store(orig, Ordering::SeqCst);
+        let r = std::fs::File::from_raw_fd(fds[0]);
+        let mut w = std::fs::File::from_raw_fd(libc::dup(orig));
+        std::thread::spawn(move || {
+            let rd = std::io::BufReader::new(r);
+            for line in rd.split(b'\n') {
+                let Ok(l) = line else { break };
+                let t = String::from_utf8_lossy(&l);
+                let t = t.trim_start();
+                let frame = t.starts_with("at ") || t.split(':').next().map(|p| !p.is_empty() && p.bytes().all(|c| c.is_ascii_digit())).unwrap_or(false) && t.contains(" - ");
+                if frame {
+                    continue;
+                }
+                let _ = w.write_all(&l);
+                let _ = w.write_all(b"\n");
+            }
+        });
+        libc::signal(libc::SIGABRT, on_abort as usize);
     }
 }
